@@ -438,6 +438,86 @@ fn run_alignment_triples(n: usize) -> Vec<Triple> {
     out
 }
 
+/// call histories on one thread with public keys that differ from one another in a single coefficient: the
+/// verdict of every call is Algorithm 16's on its own arguments (a memo of per-key precomputations keyed by part
+/// of the key, or by where the key object lives, shows in the second or third call)
+fn lookalike_key_histories<V: Variant>(ctx: &mut Ctx) {
+    let n = V::N;
+    let bound = sig_bound(n);
+    let salt = vec![0x5bu8; 40];
+    let msg = b"lookalike keys".to_vec();
+    let mut sm = salt.clone();
+    sm.extend_from_slice(&msg);
+    let c = keccak::hash_to_point(&sm, n, None);
+    let mut s2 = vec![0i64; n];
+    s2[3] = 1;
+    let Some(sq) = squares(bound - 1) else { return };
+    let s1 = sparse(n, &sq, 9);
+    let Some(h) = solve_h(&c, &s1, &s2) else { return };
+    let body = body_of(n, &s2).unwrap();
+    let sig = encode_sig(n, &salt, &body);
+    // keys: the solving key (accept) and keys that differ from it in exactly one coefficient
+    let mut keys: Vec<(String, Vec<i64>)> = vec![("the key the signature was built for".into(), h.clone())];
+    for p in [0usize, 1, 3, 4, 5, 8, n / 2, n - 1] {
+        let mut h2 = h.clone();
+        h2[p] = (h2[p] + 1) % Q;
+        keys.push((format!("the same key with coefficient {} increased by one", p), h2));
+    }
+    let pkbytes: Vec<Vec<u8>> = keys.iter().map(|(_, h)| keycodec::pk_encode(h)).collect();
+    let want: Vec<bool> = keys.iter().map(|(_, h)| refverify::verify(n, &msg, &sig[1..41], &sig[41..], h).accepted()).collect();
+    let mut hists: Vec<Vec<usize>> = vec![];
+    for a in 0..keys.len() {
+        for b in 0..keys.len() {
+            if a != b {
+                hists.push(vec![a, b]);
+                hists.push(vec![a, b, a]);
+            }
+        }
+    }
+    let mut part = Part::new(&format!("lookalike_key_histories_{}", n), &format!("one signature at squared norm exactly the bound and {} public keys (the key it verifies under and keys differing from it in one coefficient at position 0, 1, 3, 4, 5, 8, n/2, n-1); every ordered pair and triple (x, y, x) of verify calls on one fresh thread, each key decoded into the SAME local variable as the previous one: every verdict is Algorithm 16's", keys.len()));
+    let res: Vec<(Vec<usize>, Result<Vec<bool>, String>)> = hists
+        .par_iter()
+        .map(|hh| {
+            let (h2, pkb, sg, m) = (hh.clone(), pkbytes.clone(), sig.clone(), msg.clone());
+            (hh.clone(), crate::sched::on_fresh_thread(move || {
+                let sigo = V::sig_from_bytes(&sg).unwrap();
+                let mut cur = V::pk_from_bytes(&pkb[h2[0]]).unwrap();
+                let mut out = vec![];
+                for (i, &k) in h2.iter().enumerate() {
+                    if i > 0 {
+                        cur = V::pk_from_bytes(&pkb[k]).unwrap();
+                    }
+                    out.push(V::verify(&m, &sigo, &cur));
+                }
+                out
+            }))
+        })
+        .collect();
+    for (hh, r) in res {
+        part.states += 1;
+        part.transitions += hh.len() as u64;
+        part.validated += hh.len() as u64;
+        match r {
+            Err(e) => ctx.violation(format!("verify:history-panic:n={}", n), format!("verify panicked in a call history over lookalike keys: {}", e), json!({"kind":"key-history","variant":n,"history":hh})),
+            Ok(vs) => {
+                for (step, v) in vs.iter().enumerate() {
+                    if *v != want[hh[step]] {
+                        ctx.violation(
+                            format!("verify:{}:lookalike-key-history:n={}", if *v { "accepts-invalid" } else { "rejects-valid" }, n),
+                            format!("{}: in the call history {:?} on one thread, call {} (under {}) returned {} but Algorithm 16 gives {}", V::name(), hh.iter().map(|&k| if k == 0 { "K".to_string() } else { format!("K'{}", k) }).collect::<Vec<_>>(), step + 1, keys[hh[step]].0, v, want[hh[step]]),
+                            json!({"kind":"key-history","variant":n,"history":hh}),
+                        );
+                        break;
+                    }
+                }
+            }
+        }
+    }
+    part.exhaustive = true;
+    part.outcome("every verdict is the reference's".to_string());
+    ctx.add_part(part);
+}
+
 /// message length ladder: the verdict at the bound and one above it must not depend on how long the message is
 fn length_triples(n: usize, thorough: bool) -> Vec<Triple> {
     use rayon::prelude::*;
@@ -693,6 +773,7 @@ fn one_variant<V: Variant>(ctx: &mut Ctx, tier: Tier) {
     }
     run_triples_g::<V>(ctx, &format!("big_s2_{}", n), "s2 = a X^i with a in {+-6144, +-6145, +-8192, +-12159, +-12160, +-12288, +-12289, 12290, +-24578} (outside the centred range of Z_q), i in {0,1,n/2,n-1}, s1 small: the squared norm is over the decoded integers", big_s2_triples(n), false);
     run_triples::<V>(ctx, &format!("dense_{}", n), "dense short (s1,s2) of honest magnitude tuned to total norm B-1, B, B+1, B/2", dense_triples(n));
+    lookalike_key_histories::<V>(ctx);
     run_triples::<V>(ctx, &format!("run_alignment_{}", n), "s2 = +-(128 r + low) X^j for every unary run length r in 0..=95, low in {0,127}, j in 1..=8 (all eight cursor alignments), s1 = 0: accepted iff the square is within the bound", run_alignment_triples(n));
     run_triples::<V>(ctx, &format!("message_length_ladder_{}", n), &format!("messages of every length 0..={} and around 2^12 .. 2^18 (position-dependent content), s2 = +-X^(len mod n), total norm B and B+1", if tier.thorough() { 2100 } else { 520 }), length_triples(n, tier.thorough()));
     run_triples::<V>(ctx, &format!("malformed_{}", n), "otherwise acceptable signature with: negative zero, a set padding bit at each of the next 24 positions and the last bit, unary run of the last / a middle coefficient extended by 1/94/95/256/512, one coefficient short/extra, unterminated last coefficient", malformed_triples(n));
@@ -719,6 +800,12 @@ pub fn run(tier: Tier) {
 pub fn replay(case: &Value) -> Result<Option<String>, String> {
     if case.get("kind").and_then(|k| k.as_str()) == Some("e5") {
         return crate::e5::replay(case);
+    }
+    if case.get("kind").and_then(|k| k.as_str()) == Some("key-history") {
+        return Err("re-run ./vf check C02 (the call histories are enumerated deterministically)".into());
+    }
+    if case.get("kind").and_then(|k| k.as_str()) == Some("history") {
+        return crate::history::replay(case);
     }
     let variant = case.get("variant").and_then(|x| x.as_u64()).ok_or("variant")? as usize;
     let hx = |k: &str| case.get(k).and_then(|x| x.as_str()).map(unhex).ok_or(format!("missing {}", k));
